@@ -80,10 +80,29 @@ def c18(rep, tier):
         if f['tmpl'] == 'pattern':
             continue
         for e in walk_all_exprs(f['body']):
-            if e.get('k') == 'call' and e.get('callee') and not e.get('callee_in_repo'):
-                ext.setdefault(e['callee'], []).append((f, e))
+            if e.get('k') == 'call' and e.get('callee') and not e.get('callee_in_repo') and not e.get('synthetic'):
+                ext.setdefault(e['callee'], []).append((f, e))       # (synthetic: written by the normalisation of iterator loops, the original calls are std:: ones)
             if e.get('k') == 'construct' and not e.get('ctor_in_repo'):
                 ext.setdefault(e['rec'].split('<')[0] + '::(ctor)', []).append((f, e))
+    # a number written into a string stream is formatted under the global locale (digit grouping, decimal point): std::to_string is not
+    for f in facts.functions:
+        if f['tmpl'] == 'pattern' or f.get('body') is None:
+            continue
+        for e in walk_all_exprs(f['body']):
+            if not (e.get('k') == 'call' and (e.get('callee') or '').endswith('operator<<') and e.get('obj') is not None and e.get('pty')):
+                continue
+            if (e['pty'][0] or '').replace('const ', '') not in ('int', 'long', 'long long', 'unsigned int', 'unsigned long', 'unsigned long long', 'short', 'unsigned short',
+                                                                'double', 'float', 'long double', 'size_t', 'std::size_t'):
+                continue
+            root = strip_casts(e['obj'])
+            hops = 0
+            while root is not None and root.get('k') == 'call' and hops < 20:
+                root = strip_casts(root.get('obj') or (root.get('args') or [None])[0])
+                hops += 1
+            if root is not None and root.get('k') == 'ref' and 'stringstream' in (root.get('cty') or '') and root.get('dk') == 'var':
+                P3.violation('%s: %s << number' % (f['q'], root.get('name')), 'a number is formatted through a locally constructed string stream: the text depends on the global C++ locale of the '
+                             'process (digit grouping, decimal point) - the same input gives different names or messages in another process state', '%s:%d' % (os.path.relpath(f['file'], repo), e['loc'][0]),
+                             witness={'state': 'std::locale::global(a locale with digit grouping), a value of 1000 or more'})
     for name, sites in sorted(ext.items()):
         f, e = sites[0]
         where = '%s:%d' % (os.path.relpath(f['file'], repo), e['loc'][0])
